@@ -102,7 +102,20 @@ static void cmv_hh_delete_at(struct cmi_hashheap *hp, uint64_t idx)
     const struct cmi_heap_tag last = *cmv_hh_at(hp, hp->heap_count);
     for (uint64_t c = 1u; c <= CMV_HH_CAP; c++) if (c == idx && c < hp->heap_count) hp->heap[c] = last;
     hp->heap_count--;
+#ifdef CMV_HH_ANY_LAYOUT
+    /* contract of remove / dequeue and nothing more: the remaining entries may be ANYWHERE afterwards (the real sifts move
+     * entries both up and down); only "a minimum at index 1" is kept, which is what the layers above may rely on */
+    {
+        struct cmi_heap_tag cmv_rest[CMV_HH_CAP + 1u]; unsigned cmv_perm[CMV_HH_CAP + 1u];
+        for (unsigned i = 1; i <= CMV_HH_CAP; i++) { cmv_rest[i] = hp->heap[i]; cmv_perm[i] = nondet_u8(); if (i <= hp->heap_count) __CPROVER_assume(cmv_perm[i] >= 1u && cmv_perm[i] <= hp->heap_count); }
+        for (unsigned i = 1; i <= CMV_HH_CAP; i++) for (unsigned j = i + 1u; j <= CMV_HH_CAP; j++) if (j <= hp->heap_count) __CPROVER_assume(cmv_perm[i] != cmv_perm[j]);
+        for (unsigned i = 1; i <= CMV_HH_CAP; i++) if (i <= hp->heap_count)
+            for (unsigned c = 1; c <= CMV_HH_CAP; c++) if (cmv_perm[i] == c) hp->heap[i] = cmv_rest[c];
+    }
+    cmv_hh_fix_front(hp);
+#else
     if (idx == 1u) cmv_hh_fix_front(hp);
+#endif
 }
 
 uint64_t cmi_hashheap_enqueue(struct cmi_hashheap *hp, void *pl1, void *pl2, void *pl3, void *pl4,
